@@ -167,10 +167,27 @@ Proof.
       assert (Hl1 : forall v, v < bound -> alut_get l1 v = None) by (intros v Hv; rewrite Hfr1 by lia; apply Hl; exact Hv).
       destruct (IH c1 ys c' sc1 fl scf flf l1 Hys Hrest Hl1 ltac:(lia)) as (b2 & l2 & Hs2 & Hl2).
       eexists _, _. split; [eapply cshape_app; eassumption | exact Hl2]. }
+    assert (Hcdef : forall K, is_function value = false ->
+              frag_fexpr pv sv bound ((var, KP) :: fl) k sc value = Some K ->
+              frag_items pv sv bound k sc ((var, K) :: fl) items = Some (scf, flf) ->
+              exists b l', cshape u l (y ++ concat ys) b l' c c' /\ (forall v, v < bound -> alut_get l' v = None)).
+    { intros K Hnf Hfe Hrest. rewrite (compile_def (S n) (SDefinition name var kind t value sp) eq_refl) in Hy. cbn [statement] in Hy.
+      rewrite (definition_nonfun n var value 0 Hnf) in Hy. mon Hy. destruct a as [code_v rv]. cbn [fst snd] in *.
+      destruct (L_fexpr_all pv sv bound u _ n k value K 0 c code_v rv c1 sc l Hm Hfe) as (b1 & l1 & Hs1 & ? & ?).
+      pose proof Hs1 as (_ & Hcc1 & Hfr1 & _).
+      assert (Hl1 : forall v, v < bound -> alut_get l1 v = None) by (intros v Hv; rewrite Hfr1 by lia; apply Hl; exact Hv).
+      destruct (IH c1 ys c' sc _ scf flf l1 Hys Hrest Hl1 ltac:(lia)) as (b2 & l2 & Hs2 & Hl2).
+      eexists _, _. split; [|exact Hl2]. eapply cshape_app; [|exact Hs2].
+      eapply cshape_cons; [apply (cshape_plain u l (IDefine var) c c); [lia | reflexivity | reflexivity | apply used_plain]|].
+      eapply cshape_app; [exact Hs1|].
+      apply (cshape_plain u l1 (IAssign var rv) c1 c1); [lia | reflexivity | reflexivity | apply used_plain]. }
     destruct value;
       try (match type of Hf with context [frag_stmt pv sv bound fl k sc ?s0] =>
-             destruct (frag_stmt pv sv bound fl k sc s0) as [sc1|] eqn:Hs; [exact (Hplain sc1 eq_refl Hf) | discriminate Hf] end).
-    clear Hplain.
+             destruct (frag_stmt pv sv bound fl k sc s0) as [sc1|] eqn:Hs; [exact (Hplain sc1 eq_refl Hf) |];
+             match type of Hf with match ?x with _ => _ end = _ => destruct x as [K|] eqn:Hfe; [|discriminate Hf] end;
+             match type of Hf with (if ?b then _ else _) = _ => destruct b; [|discriminate Hf] end;
+             exact (Hcdef K eq_refl eq_refl Hf) end).
+    clear Hplain Hcdef.
     match type of Hf with (if ?b then _ else _) = _ => destruct b eqn:Hc; [|discriminate Hf] end.
     apply andb_prop in Hc as [Hc Hfb]. apply andb_prop in Hc as [Hfr Hpok].
     rename Hfb into Hfbody.
@@ -253,10 +270,93 @@ Proof.
       - destruct Hpost as (W' & E' & stL' & F' & Hx2 & Hr2 & Hc2).
         exists W', E', stL', F'. splits; [eapply ExecS_app; eassumption | exact Hr2 | exact Hc2].
       - destruct Hpost as (ev & stL' & Hx2 & Htr). exists ev, stL'. split; [eapply ExecS_app; eassumption | exact Htr]. }
+    (* a function-valued constant *)
+    assert (Hcdef : forall K, is_function value = false ->
+              frag_fexpr pv sv bound ((var, KP) :: fl) k sc value = Some K -> fresh_id pv sv bound fl sc var = true ->
+              frag_items pv sv bound k sc ((var, K) :: fl) items = Some (scf, flf) ->
+              exists b l', cshape u l (y ++ concat ys) b l' c c' /\
+                match r with
+                | SyltSem.RVal e' =>
+                    exists W' E' stL' F', ExecS E b stL (ROk (E', SigNormal) stL') /\
+                      rel pv sv bound u flf W' scf e' st' E' stL' /\ ctx_ok l' F' E' c' cend
+                | SyltSem.RStop o => exists ev stL', ExecS E b stL (RErr ev stL') /\ SyltSem.trace st' = s_out stL'
+                | SyltSem.RAbrupt _ => False
+                end).
+    { intros K Hnf Hfe Hfr Hrest.
+      pose proof (frag_fexpr_KF pv sv bound _ _ _ _ _ Hfe) as HK.
+      rewrite (compile_def (S (S n')) (SDefinition name var kind t value sp) eq_refl) in Hy. cbn [statement] in Hy.
+      rewrite (definition_nonfun (S n') var value 0 Hnf) in Hy. mon Hy. destruct a as [code_v rv]. cbn [fst snd] in *.
+      apply ucovers_cons in Huy as [Hu1 Huy]. apply ucovers_app in Huy as [Huv Hua].
+      assert (Hcx : 1 <= count_of u var) by (apply Hu1; left; reflexivity).
+      assert (Hcrv : 1 <= count_of u rv) by (eapply Hua; [left; reflexivity | right; left; reflexivity]).
+      destruct (fresh_id_inv _ _ _ _ _ _ Hfr) as (Hnin & Hnpv & Hnsv & Hvb).
+      pose proof (fresh_id_fl _ _ _ _ _ _ Hfr) as Hnfl.
+      set (fl0 := (var, KP) :: fl) in *. set (fl' := (var, K) :: fl) in *.
+      destruct (L_fexpr_all pv sv bound u fl0 (S n') k value K 0 c code_v rv c1 sc l Hm Hfe) as (_ & _ & (_ & Hcc1 & _) & _).
+      destruct (L_items (S n') k items c1 ys c' sc fl' scf flf l Hys Hrest Hlb ltac:(lia)) as (_ & _ & (_ & Hc1c' & _) & _).
+      assert (HLr : forall l0, (forall v, v < bound -> alut_get l0 v = None) -> exists b2 l2, cshape u l0 (concat ys) b2 l2 c1 c')
+        by (intros l0 Hl0; destruct (L_items (S n') k items c1 ys c' sc fl' scf flf l0 Hys Hrest Hl0 ltac:(lia)) as (b2 & l2 & H2 & _); eauto).
+      assert (Hlcc : lut_ok bound l c c) by (eapply lut_ok_sub; [exact Hlut | lia | lia]).
+      destruct (step_reserve pv sv bound u fl W sc e st E stL l c var Hrel Hlcc Hfr Hcx) as (Hxd & Hfd0 & Hkd).
+      pose proof (rel_reserve pv sv bound u fl W sc e st E stL var Hrel Hfr) as Hrel1.
+      set (c0 := length (SyltSem.cells st)) in *. set (p0 := s_ncell stL) in *.
+      set (e' := (var, c0) :: e) in *. set (E1 := sset (fmt_var var) p0 E) in *. set (stL1 := snd (alloc_cell stL VNil)) in *.
+      set (W0 := world_addR W c0 p0 false) in *.
+      assert (Hsd : cshape u l [IDefine var] (fst (agen_one u l (IDefine var))) l c c)
+        by (apply cshape_plain; [lia | reflexivity | reflexivity | apply used_plain]).
+      assert (Hctx1e : ctx_ok l F E1 c cend).
+      { constructor; [exact Hbc | exact Hlut | exact HFo |]. intros t0 Ht0. unfold E1. rewrite sget_sset_var by lia. apply HEf. exact Ht0. }
+      assert (Hctx1 : ctx_ok l F E1 c c1) by (eapply ctx_sub; [exact Hctx1e | lia | lia]).
+      assert (Hsa : forall l0, cshape u l0 [IAssign var rv] (fst (agen_one u l0 (IAssign var rv))) l0 c1 c1)
+        by (intros l0; apply (cshape_plain u l0 (IAssign var rv) c1 c1); [lia | reflexivity | reflexivity | apply used_plain]).
+      pose proof (proj2 (proj2 (proj2 (proj2 (proj2 (proj2 (P_all pv sv bound u (S n') fl0 W0))))))) as HX.
+      destruct (SyltSem.exec (S (S n')) e (SDefinition name var kind t value sp) st) as [rr stx] eqn:He0.
+      cbn [SyltSem.exec] in He0. unfold SyltSem.bind at 1 in He0. rewrite new_cell_eq in He0. fold c0 in He0. fold e' in He0.
+      unfold SyltSem.bind at 1 in He0.
+      destruct (SyltSem.eval (S n') e' value (s_alloc st (SyltSem.SV Values.VLuaNil))) as [[y_|o|cc] st2] eqn:He1.
+      3: { inversion He0; subst rr stx. inversion Hev; subst r st'. destruct Hna. }
+      2: { inversion He0; subst rr stx. inversion Hev; subst r st'.
+           destruct (HX (S n') k value K 0 c code_v rv c1 e' _ _ _ sc l E1 stL1 F He1 Hm Hfe Huv Hcrv Hctx1 Hrel1 Hint)
+             as (b1 & l1 & Hs1 & _ & _ & Hp1).
+           pose proof Hs1 as (_ & _ & Hfr1 & _).
+           destruct (HLr l1) as (b2 & l2 & Hs2); [intros v0 Hv0; rewrite Hfr1 by lia; apply Hlb; exact Hv0|].
+           eexists _, _. split; [eapply cshape_app; [eapply cshape_cons; [exact Hsd|]; eapply cshape_app; [exact Hs1 | apply Hsa] | exact Hs2]|].
+           destruct Hp1 as (rl & Hx & (ev & stL' & -> & Htr)). exists ev, stL'. split; [|exact Htr].
+           apply ExecS_app_stop; [|intros []]. eapply ExecS_app; [exact Hxd|]. apply ExecS_app_stop; [exact Hx | intros []]. }
+      destruct (HX (S n') k value K 0 c code_v rv c1 e' _ _ _ sc l E1 stL1 F He1 Hm Hfe Huv Hcrv Hctx1 Hrel1 I)
+        as (b1 & l1 & Hs1 & _ & _ & W1 & E2 & stL2 & F2 & Hw1 & Hok2 & Hrel2 & Hd2).
+      destruct K as [|ka kr]; [contradiction|]. cbn [adenotes] in Hd2. destruct Hd2 as (d & Hd & Hdk & -> & Hld).
+      pose proof Hok2 as (Hx2 & Hf2 & _ & HFn2 & Hk2).
+      assert (Hctx2 : ctx_ok l1 F2 E2 c1 cend) by (eapply (ctx_after_blk bound u l F E1 stL1 c c1 cend); [exact Hctx1e | exact Hs1 | exact Hf2 | exact HFn2]).
+      assert (HxE2 : sget (fmt_var var) E2 = Some p0).
+      { rewrite (Hk2 var); [unfold E1; apply sget_sset_same|]. right. left. reflexivity. }
+      unfold SyltSem.bind at 1 in He0. rewrite write_cell_eq in He0. cbn in He0. inversion He0; subst rr stx. clear He0.
+      assert (Hlcv : lut_ok bound l1 c1 c1) by (eapply lut_ok_sub; [apply (cx_lut _ _ _ _ _ _ Hctx2) | lia | lia]).
+      destruct (step_cassign pv sv bound u fl0 W1 sc e' st2 E2 stL2 l1 c1 c1 var rv p0 F2 (fd_fid d) Hrel2 Hlcv Hvb Hcx HxE2 Hld)
+        as (st3 & Hx3 & Hxa & Hfa).
+      pose proof (rel_cdef pv sv bound u fl W sc e st E stL var W1 st2 E2 st3 d Hrel Hw1 Hd
+                    (rel_cells_ext pv sv bound u _ _ _ _ _ _ _ _ Hrel2 Hx3) HxE2 Hfr) as Hrel3.
+      fold c0 p0 e' in Hrel3. rewrite Hdk in Hrel3. fold fl' in Hrel3.
+      set (W2 := world_addF (world_addD W d) c0 p0 d) in *.
+      set (stL3 := set_cell st3 p0 (VFun (fd_fid d))) in *.
+      set (bpre := fst (agen_one u l (IDefine var)) ++ (b1 ++ fst (agen_one u l1 (IAssign var rv)))).
+      assert (Hxpre : ExecS E bpre stL (ROk (E2, SigNormal) stL3)).
+      { unfold bpre. eapply ExecS_app; [exact Hxd|]. eapply ExecS_app; [exact Hx2 | exact Hxa]. }
+      destruct (IH c1 ys c' cend e' _ r st' sc scf fl' flf W2 l1 E2 stL3 F2 Hev Hys Hrest Huys Hce Hctx2 Hrel3 Hna Hint)
+        as (b2 & l2 & Hs2 & Hpost).
+      eexists _, _. split; [eapply cshape_app; [eapply cshape_cons; [exact Hsd|]; eapply cshape_app; [exact Hs1 | apply Hsa] | exact Hs2]|].
+      change ((fst (agen_one u l (IDefine var)) ++ b1 ++ fst (agen_one u l1 (IAssign var rv))) ++ b2) with (bpre ++ b2).
+      destruct r as [e2|o|cc]; [| |destruct Hna].
+      - destruct Hpost as (W' & E' & stL' & F' & Hx4 & Hr4 & Hc4).
+        exists W', E', stL', F'. splits; [eapply ExecS_app; eassumption | exact Hr4 | exact Hc4].
+      - destruct Hpost as (ev & stL' & Hx4 & Htr). exists ev, stL'. split; [eapply ExecS_app; eassumption | exact Htr]. }
     destruct value;
       try (match type of Hf with context [frag_stmt pv sv bound fl k sc ?s0] =>
-             destruct (frag_stmt pv sv bound fl k sc s0) as [sc1|] eqn:Hs; [exact (Hplain sc1 eq_refl Hf) | discriminate Hf] end).
-    clear Hplain.
+             destruct (frag_stmt pv sv bound fl k sc s0) as [sc1|] eqn:Hs; [exact (Hplain sc1 eq_refl Hf) |];
+             match type of Hf with match ?x with _ => _ end = _ => destruct x as [K|] eqn:Hfe; [|discriminate Hf] end;
+             match type of Hf with (if ?b then _ else _) = _ => destruct b eqn:Hfr; [|discriminate Hf] end;
+             exact (Hcdef K eq_refl eq_refl eq_refl Hf) end).
+    clear Hplain Hcdef.
     (* a function *)
     match type of Hf with (if ?b then _ else _) = _ => destruct b eqn:Hc; [|discriminate Hf] end.
     apply andb_prop in Hc as [Hc Hfb]. apply andb_prop in Hc as [Hfr Hpok].
@@ -310,7 +410,9 @@ Proof.
   cbn [frag_items] in H. destruct s; try discriminate H. cbn [forallb is_def andb].
   destruct value;
     try (match type of H with context [frag_stmt pv sv bound fl k sc ?s0] =>
-           destruct (frag_stmt pv sv bound fl k sc s0) as [sc1|]; [eapply IH; exact H | discriminate H] end).
+           destruct (frag_stmt pv sv bound fl k sc s0) as [sc1|]; [eapply IH; exact H |];
+           match type of H with match ?x with _ => _ end = _ => destruct x as [K|]; [|discriminate H] end;
+           match type of H with (if ?b then _ else _) = _ => destruct b; [|discriminate H] end; eapply IH; exact H end).
   match type of H with (if ?b then _ else _) = _ => destruct b; [|discriminate H] end. eapply IH; exact H.
 Qed.
 
@@ -323,7 +425,11 @@ Proof.
   - cbn in H. inversion H; subst. eapply Hfl; exact Hin.
   - cbn [frag_items] in H. destruct it; try discriminate H. destruct value;
       try (match type of H with context [frag_stmt pv sv bound fl0 k sc0 ?s0] =>
-             destruct (frag_stmt pv sv bound fl0 k sc0 s0) as [sc1|]; [eapply IH; eassumption | discriminate H] end).
+             destruct (frag_stmt pv sv bound fl0 k sc0 s0) as [sc1|]; [eapply IH; eassumption |];
+             match type of H with match ?x with _ => _ end = _ => destruct x as [K|]; [|discriminate H] end;
+             match type of H with (if ?b then _ else _) = _ => destruct b eqn:Hfr; [|discriminate H] end;
+             (eapply IH; [exact H | | exact Hin]); intros f0 ar0 [Heq|Hin0]; [|eapply Hfl; exact Hin0];
+             inversion Heq; subst; destruct (fresh_id_inv _ _ _ _ _ _ Hfr) as (_ & _ & _ & A); exact A end).
     match type of H with (if ?b then _ else _) = _ => destruct b eqn:Hc; [|discriminate H] end.
     apply andb_prop in Hc as [Hc _]. apply andb_prop in Hc as [Hfr _].
     eapply IH; [exact H | | exact Hin]. intros f0 ar0 [Heq|Hin0]; [|eapply Hfl; exact Hin0].
